@@ -285,7 +285,17 @@ func (r *Result) finish(verifDir string, start time.Time, seed int, checkerCmd s
 // (re-initialisation, release, pooled maps) are adopted with floor 0: a tree that stops pooling a type has nothing to
 // re-initialise or release, the adopting property holds trivially, and a floor firing there would be a false alarm.
 // The source rule keeps its own floor in its own property.
+// shareDepth guards against two properties adopting rules from each other (C02 adopts from C10; C10 adopting from C02
+// would run each other's checks without end): adoptions are only followed one level deep - a check that runs as the
+// source of an adoption does not run its own adoptions.
+var shareDepth int
+
 func shareRule(P *Prog, r *Result, src ruleFunc, srcRule string, keep func(o Obligation) bool, newRule string, floor int) {
+	if shareDepth > 0 {
+		return
+	}
+	shareDepth++
+	defer func() { shareDepth-- }()
 	tmp := NewResult(r.Prop, r.Tier)
 	src(P, tmp)
 	for _, o := range tmp.Obls {
